@@ -50,7 +50,10 @@ WithinRadius(e, g) ==
 
 (* ---- stage 1: manager filter ------------------------------------------- *)
 FilteredEsts == FilterIds(Ids(Ests), Ests, FALSE, cfg.mfilter)
-FilteredGts == FilterIds(Ids(Gts), Gts, TRUE, cfg.mfilter)
+\* ids of the ground truths present in the frame object handed to add_frame_result (all of them unless a history
+\* model says otherwise)
+GtIds == IF "gtIds" \in DOMAIN frame THEN frame.gtIds ELSE Ids(Gts)
+FilteredGts == FilterIds(GtIds, Gts, TRUE, cfg.mfilter)
 
 (* ---- stage 2: matching (Matching.tla instantiated on the filtered lists) *)
 MM == INSTANCE Matching WITH
